@@ -165,6 +165,34 @@ fn table_case(g: &mut MG, i: u64) -> Vec<S> {
 
 const N_TABLE: u64 = 19 + 3 + 4 + 4 + 2 + 3;
 
+/// Literal spellings at the corners of the lexical grammar (zero mantissas, both exponent markers,
+/// bare and leading dots, leading zeros): the graph holds a literal of the class of the spelling.
+const FLOAT_SPELLINGS: &[&str] = &["0E3", "0e3", "0E-2", "0e+0", "0.E3", "0.e-1", "00E3", "1E3", "1e0", ".5", "5.", "0.", ".0", "00.5e1", "1_0.5E1_0", "0_0.0"];
+const INT_SPELLINGS: &[&str] = &["0", "00", "007", "0_0", "0x0", "0X0", "0b0", "0B1", "0o0", "0O7", "0x1E3", "0xE", "1_0"];
+
+fn literal_spelling_case(g: &mut MG, i: u64) -> Vec<S> {
+    let nf = FLOAT_SPELLINGS.len() as u64;
+    let ni = INT_SPELLINGS.len() as u64;
+    let k = i % (nf + ni);
+    let pos = i / (nf + ni);
+    let (lit, ty) = if k < nf { (g.e(EK::Float(FLOAT_SPELLINGS[k as usize].to_string())), MTy::new(Base::Float, Some(64))) } else { (g.e(EK::Int(INT_SPELLINGS[(k - nf) as usize].to_string())), MTy::new(Base::Int, Some(32))) };
+    match pos {
+        0 => vec![g.s(SK::Decl(false, ty, "v".into(), Some(lit)))],
+        1 => {
+            let d = g.s(SK::Decl(false, ty, "v".into(), None));
+            let t = g.e(EK::Ident("v".into()));
+            vec![d, g.s(SK::Assign(t, None, lit))]
+        }
+        _ => {
+            // as the right operand of a binary operator (a sign of the exponent must not become an operator)
+            let a = g.e(EK::Ident("w".into()));
+            let d0 = g.s(SK::Decl(false, ty.clone(), "w".into(), None));
+            let e = g.e(EK::Binary(BinOp::Mul, Box::new(a), Box::new(lit)));
+            vec![d0, g.s(SK::Decl(false, ty, "v".into(), Some(e)))]
+        }
+    }
+}
+
 impl Property for C06 {
     fn id(&self) -> &'static str {
         "C06"
@@ -175,6 +203,7 @@ impl Property for C06 {
     fn streams(&self, tier: Tier, seed: u64) -> Vec<Stream> {
         vec![
             Stream::new("operator-annotation-pragma-tables", N_TABLE, true, |i| format!("table:{i}")),
+            Stream::new("literal-spellings", (FLOAT_SPELLINGS.len() + INT_SPELLINGS.len()) as u64 * 3, true, |i| format!("lits:{i}")),
             Stream::new("random-programs-avoid-profile", tier.pick(25_000, 1_200_000), false, move |i| format!("rand:avoid:{}", mix(&[seed, 0xC06, 1, i]))),
             Stream::new("random-programs-deep", tier.pick(3_000, 150_000), false, move |i| format!("rand:deep:{}", mix(&[seed, 0xC06, 2, i]))),
         ]
@@ -182,6 +211,14 @@ impl Property for C06 {
     fn check(&self, input: &str, obs: &mut Obs) {
         let parts: Vec<&str> = input.split(':').collect();
         match parts[0] {
+            "lits" => {
+                let i: u64 = parts[1].parse().unwrap_or(0);
+                let mut r = Rng::new(mix(&[0xC06, 10, i]));
+                let mut g = MG::new(&mut r, GenCfg { unique_leaves: true, ..GenCfg::semantic() });
+                let prog = literal_spelling_case(&mut g, i);
+                obs.class("table");
+                check_program(&prog, i, "literal-spelling", obs);
+            }
             "table" => {
                 let i: u64 = parts[1].parse().unwrap_or(0);
                 let mut r = Rng::new(mix(&[0xC06, 9, i]));
